@@ -69,9 +69,38 @@ SPECIAL_TEXTS = [
 ]
 
 
+# documents given as BYTES (what a file may really contain): only the byte-level source kinds apply, and they
+# must agree with each other
+SPECIAL_BYTES = [
+    'a: caf\xe9 \u20ac\n'.encode('utf-16'), 'k: [1, 2]\n'.encode('utf-16-le'), b'\xef\xbb\xbfa: 1\n', b'a: \xff\xfe\n', b'a: \xe9\n',
+    b'a: b\r\nc: d\x07\r\n', b'%\r\na: 1\r\n', b'a: !!\rb: 1\r', b'a: "x\r\ny"\r\n', 'a: \u00e9\r\n'.encode('utf-8'),
+    '- \U0001F600\n'.encode('utf-16-be'), b'', b'\xff',
+]
+BYTE_SOURCES = ['bytesio', 'binfile', 'path']
+
+
+def load_bytes_outcome(load, kind, data, name):
+    d = tmpdir()
+    p = os.path.join(d, name)
+    try:
+        if kind == 'bytesio':
+            return ('ok', load(io.BytesIO(data)))
+        with open(p, 'wb') as f:
+            f.write(data)
+        if kind == 'path':
+            return ('ok', load(pathlib.Path(p)))
+        with open(p, 'rb') as f:
+            return ('ok', load(f))
+    except (yatiml.RecognitionError, yaml.YAMLError) as e:
+        return ('err',) + normalise_error(e)
+    except Exception as e:     # noqa
+        return ('exc', type(e).__name__, str(e)[:200])
+
+
 def normalise_error(e):
     msg = str(e)
     msg = re.sub(r'in "[^"]*", line', 'in <source>, line', msg)
+    msg = re.sub(r'in "[^"]*", position', 'in <source>, position', msg)
     msg = re.sub(r'(line \d+, column \d+):(?=\n|$)', r'\1', msg)      # the colon announces the snippet
     lines = [ln for ln in msg.split('\n') if not ln.startswith('    ')]
     return (type(e).__name__, '\n'.join(lines))
@@ -151,6 +180,21 @@ def run_load(unit, tier, res):
                               {'kind': 'load', 'spec': spec, 'text': text, 'source': src})
         if i == 0:
             res.sample({'kind': 'load', 'root': str(spec['root']), 'text': text, 'outcome': base[0]}, 1)
+    if unit % 8 == 0:
+        for data in SPECIAL_BYTES:
+            res.states += 1
+            base = load_bytes_outcome(case.load, 'bytesio', data, 'doc.yaml')
+            res.hist['load-bytes:' + base[0]] += 1
+            for src in BYTE_SOURCES[1:]:
+                res.transitions += 1
+                res.traces += 1
+                o = load_bytes_outcome(case.load, src, data, 'doc.yaml')
+                same = (o[0] == base[0] == 'ok' and eqv(o[1], base[1])) or (o[0] != 'ok' and o == base)
+                if not same:
+                    res.violation('C12:load-bytes:%s-differs:%s' % (src, o[0] + '/' + base[0]),
+                                  'bytes %r as %s: from BytesIO -> %s; from %s -> %s' % (
+                                      data, spec['root'], show(base[1:]), src, show(o[1:])),
+                                  {'kind': 'load-bytes', 'spec': spec, 'data': list(data), 'source': src, 'text': ''})
 
 
 def dump_variants(dump, dumpj):
@@ -276,14 +320,86 @@ def run_dump_strings(pos, tier, res):
                         res.hist['dump-identical-non-ascii'] += 1
 
 
+LOCALE_SCRIPT = r'''
+import io, json, locale, os, pathlib, sys, tempfile
+import yatiml
+out = {'preferred_encoding': locale.getpreferredencoding(False), 'mismatches': [], 'cases': 0}
+d = tempfile.mkdtemp(prefix='verif_c12_locale_')
+def rec(what, a, b):
+    out['cases'] += 1
+    if a != b:
+        out['mismatches'].append([what, repr(a)[:200], repr(b)[:200]])
+def outcome(f):
+    try:
+        return ['ok', f()]
+    except Exception as e:
+        return ['exc', type(e).__name__]
+texts = ['a: caf\u00e9\n', 'k: [\u20ac, "\U0001F600"]\n', 'plain: ascii\n']
+load = yatiml.load_function()
+for i, t in enumerate(texts):
+    p = pathlib.Path(d) / ('doc%d.yaml' % i)
+    p.write_bytes(t.encode('utf-8'))
+    base = outcome(lambda: load(t))
+    rec('load Path vs str: %r' % t, outcome(lambda: load(p)), base)
+    with open(str(p), 'rb') as f:
+        rec('load binary stream vs str: %r' % t, outcome(lambda: load(f)), base)
+values = [{'k': 'caf\u00e9'}, ['\u20ac', {'x': '\U0001F600'}], {'plain': 'ascii'}]
+dumps, dump = yatiml.dumps_function(), yatiml.dump_function()
+dumpsj, dumpj = yatiml.dumps_json_function(), yatiml.dump_json_function()
+for i, v in enumerate(values):
+    for name, twin, fn, kw in (('yaml', dumps, dump, {}), ('json', dumpsj, dumpj, {}), ('json-unicode', dumpsj, dumpj, {'ensure_ascii': False}),
+                               ('json-unicode-indent', dumpsj, dumpj, {'ensure_ascii': False, 'indent': 2})):
+        want = outcome(lambda: twin(v, **kw))
+        for sink in ('filename', 'path'):
+            p = os.path.join(d, 'out%d.txt' % i)
+            def write():
+                fn(v, p if sink == 'filename' else pathlib.Path(p), **kw)
+                with open(p, 'rb') as f:
+                    return f.read().decode('utf-8')
+            rec('%s of %r to a %s vs the dumps twin' % (name, v, sink), outcome(write), want)
+import shutil
+shutil.rmtree(d, ignore_errors=True)
+print(json.dumps(out))
+'''
+
+
+def run_locale(res):
+    """the same comparisons in an interpreter whose locale encoding is not UTF-8 (LC_ALL=C, UTF-8 mode off), as on
+    many Windows installations: what a Path source / a path sink reads and writes must not depend on the locale"""
+    import json
+    import subprocess
+    import sys
+    env = dict(os.environ, LC_ALL='C', LANG='C', PYTHONUTF8='0', PYTHONCOERCECLOCALE='0', PYTHONIOENCODING='utf-8')
+    script = os.path.join(tmpdir(), 'locale_probe.py')
+    with open(script, 'w', encoding='utf-8') as f:
+        f.write(LOCALE_SCRIPT)
+    r = subprocess.run([sys.executable, script], env=env, stdout=subprocess.PIPE, stderr=subprocess.PIPE, text=True,
+                       encoding='utf-8', timeout=300)
+    if r.returncode != 0:
+        raise core.HarnessError('locale sub-process failed: %s' % r.stderr[-500:])
+    out = json.loads(r.stdout.strip().split('\n')[-1])
+    res.extra['locale_encoding'] = out['preferred_encoding']
+    res.states += out['cases']
+    res.transitions += out['cases']
+    res.traces += out['cases']
+    res.nontrivial += out['cases']
+    res.hist['locale-cases'] += out['cases']
+    for what, a, b in out['mismatches']:
+        res.violation('C12:locale:%s' % ('load' if what.startswith('load') else 'dump'),
+                      'under a non-UTF-8 locale (%s): %s: %s vs %s' % (out['preferred_encoding'], what, a, b),
+                      {'kind': 'locale', 'text': '', 'spec': {'classes': [], 'root': 'any'}})
+
+
 def units(tier):
-    return [('load', i) for i in range(len(load_models(tier)))] + [('dump', i) for i in range(len(C06.families()))] + \
+    return [('locale',)] + [('load', i) for i in range(len(load_models(tier)))] + [('dump', i) for i in range(len(C06.families()))] + \
         [('dumpstr', p) for p in (STR_POSITIONS[:4] if tier == 'quick' else STR_POSITIONS)]
 
 
 def run_unit(unit, tier):
     res = core.Result()
-    if unit[0] == 'load':
+    if unit[0] == 'locale':
+        run_locale(res)
+    elif unit[0] == 'load':
         run_load(unit[1], tier, res)
     elif unit[0] == 'dumpstr':
         run_dump_strings(unit[1], tier, res)
@@ -299,6 +415,16 @@ def finish(total, tier):
 
 def replay(payload):
     res = core.Result()
+    if payload['kind'] == 'locale':
+        run_locale(res)
+        return bool(res.violations), (res.violations[0]['what'] if res.violations else 'no difference under a non-UTF-8 locale')
+    if payload['kind'] == 'load-bytes':
+        case = loadcase.Case(payload['spec'])
+        data = bytes(payload['data'])
+        base = load_bytes_outcome(case.load, 'bytesio', data, 'doc.yaml')
+        o = load_bytes_outcome(case.load, payload['source'], data, 'doc.yaml')
+        same = (o[0] == base[0] == 'ok' and eqv(o[1], base[1])) or (o[0] != 'ok' and o == base)
+        return (not same), 'from BytesIO: %s; from %s: %s' % (show(base[1:]), payload['source'], show(o[1:]))
     if payload['kind'] == 'load':
         case = loadcase.Case(payload['spec'])
         base = load_outcome(case.load, 'str', payload['text'], 'doc.yaml')
